@@ -184,6 +184,21 @@ func TestC08(t *testing.T) {
 				}
 				cases = append(cases, bn.KwPrint+cp+" 1;", bn.KwPrint+" 1"+cp+";", bn.KwPrint+" 1;"+cp, cp+bn.KwPrint+" 1;", bn.KwPrint[:len(bn.KwPrint)-3]+cp+bn.KwPrint[len(bn.KwPrint)-3:]+" 1;")
 			}
+			// texts that are wrong only in meaning: the front end accepts them (whether and when they fail is the
+			// evaluator's business), also when the doubtful part could never run
+			F, V, R := bn.KwFun, bn.KwVar, bn.KwReturn
+			semantic := []string{
+				F + " f(a) { " + V + " a = 1; }", F + " f(a) { " + R + " a; " + V + " a = 0; }", F + " f(a, b) { " + V + " b; " + V + " a; }", F + " f(a, a) { }", F + " f(f) { }",
+				V + " x = x;", "{ " + V + " x = x; }", F + " f(n) { " + V + " n = n; }", V + " a = 1; " + V + " a = 2;", V + " a, a;", V + " a = 1, a = 2;",
+				F + " g() { } " + F + " g() { }", V + " g = 1; " + F + " g() { }", F + " g() { } " + V + " g = 1;",
+				bn.KwBreak + ";", bn.KwContinue + ";", R + " 1;", "{ " + bn.KwBreak + "; }", bn.KwIf + " (1) " + bn.KwContinue + ";", F + " f() { " + bn.KwBreak + "; }", bn.KwWhile + " (1) { " + F + " f() { " + bn.KwBreak + "; } }",
+				"undefinedName;", "undefinedName();", "1();", "nil.k;", "\"s\"[0] = 1;", "1 / 0;", "f(1, 2, 3);", bn.BLen + "();", bn.BLen + "(1, 2, 3);", bn.BLen + " = 1;", "x = " + bn.BLen + ";",
+				bn.KwIf + " (" + bn.KwFalse + ") { " + V + " z = z; undefinedName(); 1 / 0; " + bn.KwBreak + "; }", F + " never() { " + V + " q = q; " + V + " q = 1; " + R + "; " + bn.KwBreak + "; }",
+				bn.KwFor + " (" + V + " i = i; i; i) { }", bn.KwFor + " (" + V + " i = 0, i = 1; ; ) { " + bn.KwBreak + "; }", "{k: 1, k: 2}.k;", "x = {k: 1, k: 2};", "a = a;", "a = a = a;",
+			}
+			for _, t := range semantic {
+				cases = append(cases, t, bn.KwPrint+" 1;\n"+t+"\n"+bn.KwPrint+" 2;", F+" wrap() {\n"+t+"\n}", bn.KwIf+" ("+bn.KwFalse+") {\n"+t+"\n}")
+			}
 			for _, cs := range cases {
 				c.c08Text(s, "boundaries", cs, false)
 			}
